@@ -373,7 +373,8 @@ class Skeleton(CanDictSerialize, CanDictDeserialize):
 
     def copy(self) -> Skeleton:
         """Copy a `cai_causal_graph.causal_graph.Skeleton` instance."""
-        new_skeleton = self.__class__.from_dict(self.to_dict())
+        # pass the graph class so that the copy has the same node class as this skeleton
+        new_skeleton = self.__class__.from_dict(self.to_dict(), graph_class=type(self._graph))
         assert isinstance(new_skeleton, self.__class__)  # for linting and sanity check
         return new_skeleton
 
